@@ -10,6 +10,8 @@
 
 #include <boost/gil/extension/io/bmp/tags.hpp>
 
+#include <limits>
+
 namespace boost { namespace gil {
 
 #if BOOST_WORKAROUND(BOOST_MSVC, >= 1400)
@@ -100,6 +102,11 @@ public:
             _info._width  = _io_dev.read_uint32();
             _info._height = _io_dev.read_uint32();
 
+            if (_info._height == (std::numeric_limits<bmp_image_height::type>::min)())
+            {
+                io_error( "Invalid BMP height." );
+            }
+
             if (_info._height < 0)
             {
                 _info._height = -_info._height;
@@ -167,6 +174,12 @@ public:
         else
         {
             io_error( "Invalid BMP info header." );
+        }
+
+        // a zero or negative width, or a zero / still negative height (header sizes other than 40), cannot be read
+        if( _info._width < 1 || _info._height < 1 )
+        {
+            io_error( "Invalid dimension for bmp file." );
         }
 
         _info._valid = true;
